@@ -33,7 +33,7 @@ use crate::Envelope;
 #[cfg(feature = "known_value")]
 use crate::extension::known_values;
 
-use anyhow::Result;
+use anyhow::{bail, Result};
 use bc_components::Salt;
 use bc_rand::{RandomNumberGenerator, SecureRandomNumberGenerator};
 use dcbor::prelude::*;
@@ -234,6 +234,11 @@ impl Envelope {
     /// value of the range is less than 8 bytes.
     #[doc(hidden)]
     pub fn add_salt_in_range_using(&self, range: &RangeInclusive<usize>, rng: &mut impl RandomNumberGenerator) -> Result<Self> {
+        if range.is_empty() {
+            // An inverted range has no admissible length; report it instead of
+            // tripping the range assertion in the random number generator.
+            bail!("Salt length range is empty");
+        }
         Ok(self.add_salt_instance(Salt::new_in_range_using(range, rng)?))
     }
 
